@@ -210,10 +210,13 @@ void *sdk_dns_arg = NULL;
 char sdk_dns_name[260];
 
 void (*sdk_sent_hook)(const uint8_t *p, int len, int result) = NULL;
+int sdk_conn_open = 0;
+int sdk_sent_requires_open = 0; /* 1: without an established connection espconn_sent fails with ESPCONN_CONN */
 static sint8 do_sent(struct espconn *c, uint8 *p, uint16 len) {
   int r = sdk_esp_default;
   if (sdk_esp_script_pos < sdk_esp_script_len)
     r = sdk_esp_script[sdk_esp_script_pos++];
+  if (sdk_sent_requires_open && sdk_conn_open != 2) r = ESPCONN_CONN;
   fprintf(stdout, "SENT %d ", r);
   if (sdk_log_sent_bytes) {
     if (p)
@@ -232,7 +235,6 @@ sint8 espconn_sent(struct espconn *c, uint8 *p, uint16 len) {
 sint8 espconn_secure_sent(struct espconn *c, uint8 *p, uint16 len) {
   return do_sent(c, p, len);
 }
-int sdk_conn_open = 0;
 static sint8 do_connect(struct espconn *c) {
   sdk_last_conn = c;
   sdk_conn_open = 1;
@@ -248,7 +250,9 @@ sint8 espconn_connect(struct espconn *c) { return do_connect(c); }
 sint8 espconn_secure_connect(struct espconn *c) { return do_connect(c); }
 static sint8 do_disconnect(struct espconn *c) {
   sdk_out("DISCONNECT");
-  sdk_conn_open = 0;
+  /* an established connection is closed; a connect that is still in progress is not cancelled (the SDK
+     reports ESPCONN_ARG and the attempt completes) unless a driver opts in */
+  if (sdk_conn_open != 1 || !sdk_sent_requires_open) sdk_conn_open = 0;
   if (sdk_disconnect_calls_cb && c && c->proto.tcp &&
       c->proto.tcp->disconnect_callback)
     c->proto.tcp->disconnect_callback(c);
